@@ -113,8 +113,8 @@ def rule(name):
     return {'k': 'rule', 'name': name}
 
 
-def probe(pid, arity, flag):
-    return {'k': 'probe', 'id': pid, 'arity': arity, 'flag': cps(flag), '_flag': flag}
+def probe(pid, arity, flag, derived=False):
+    return {'k': 'probe', 'id': pid, 'arity': arity, 'flag': cps(flag), '_flag': flag, '_derived': derived}
 
 
 def http(scheme, *parts):
@@ -151,7 +151,7 @@ def leaf_text(t):
     if k == 'rule':
         return 'rule:' + t['name']
     if k == 'probe':
-        return 'p%d:%s' % (t['arity'], t['_flag'] + '#%d' % t['id'])
+        return 'p%d%s:%s' % (t['arity'], 'b' if t.get('_derived') else '', t['_flag'] + '#%d' % t['id'])
     if k == 'http':
         return t['scheme'] + ':' + template_text(t['parts'])
     raise ValueError(k)
@@ -197,6 +197,8 @@ def strip(x):
 def tree_strings(t, acc):
     if isinstance(t, dict):
         for k, v in t.items():
+            if k == '_derived':
+                continue
             if k == '_s' or k == '_flag' or k == '_lhs':
                 acc.append(v)
             else:
@@ -230,8 +232,24 @@ def install_probes():
             PROBE_LOG.append(['probe', int(pid), '<noarg>'])
             return flag in creds.get('f', [])
 
+    # derived classes whose call signature differs from their base's: the arity is a
+    # property of the class being called, not of an ancestor evaluated earlier
+    class P3b(P4):
+        def __call__(self, target, creds, enforcer):
+            flag, pid = self.match.rsplit('#', 1)
+            PROBE_LOG.append(['probe', int(pid), '<noarg>'])
+            return flag in creds.get('f', [])
+
+    class P4b(P3):
+        def __call__(self, target, creds, enforcer, current_rule=None):
+            flag, pid = self.match.rsplit('#', 1)
+            PROBE_LOG.append(['probe', int(pid), '' if current_rule is None else current_rule])
+            return flag in creds.get('f', [])
+
     _checks.register('p4', P4)
     _checks.register('p3', P3)
+    _checks.register('p3b', P3b)
+    _checks.register('p4b', P4b)
 
 
 # ---------------------------------------------------------------- enforce driver
